@@ -2,13 +2,20 @@
 //! case: {"repo": "<worktree path>", "untracked": "no"|"normal"|"all", "ignored": bool}
 //! got:  {"items": [{"path": text, "code": "M"|"D"|"T"|"A"|"U"|"?"|"!", "dir": bool, "detail": text}..]}
 //!   M/D/T/A/U: Item::Modification (content or mode change / removed / type change / intent-to-add / conflict),
-//!   ?: untracked directory-walk entry, !: ignored one.  EntryStatus::NeedsUpdate is not an item of the status.
+//!   ?: untracked directory-walk entry, !: ignored one.  N = EntryStatus::NeedsUpdate (stat refresh only: not part of the status,
+//!   kept for diagnostics).
 //! The repository is opened afresh for every case (the index is read from disk, its timestamp included).
 use vhlib::*;
 
 fn main() {
     run(|case| {
         let repo = gix::open(jstr(&case["repo"])).expect("open repository");
+        if case["op"].as_str() == Some("index-timestamp") {
+            // diagnostics: the timestamp gix attaches to the index it loaded (what racy-git detection compares mtimes with)
+            let index = repo.index().expect("index");
+            let ts = index.timestamp();
+            return json!({"index_timestamp_secs": ts.unix_seconds(), "index_timestamp_nanos": ts.nanoseconds()});
+        }
         let untracked = match jstr(&case["untracked"]) {
             "no" => gix::status::UntrackedFiles::None,
             "normal" => gix::status::UntrackedFiles::Collapsed,
@@ -45,7 +52,7 @@ fn main() {
                         EntryStatus::Change(Change::Type) => "T",
                         EntryStatus::Change(Change::Modification { .. }) => "M",
                         EntryStatus::Change(Change::SubmoduleModification(_)) => "S",
-                        EntryStatus::NeedsUpdate(_) => continue,
+                        EntryStatus::NeedsUpdate(_) => "N",
                         EntryStatus::IntentToAdd => "A",
                     };
                     items.push(json!({"path": rela_path.to_string(), "code": code, "dir": false, "detail": format!("{status:?}").chars().take(120).collect::<String>()}));
